@@ -6,6 +6,8 @@ import (
 	"encoding/pem"
 	"fmt"
 	"math/big"
+	"os"
+	"path/filepath"
 	"sync"
 	"time"
 
@@ -108,6 +110,86 @@ func s26() scenario {
 				o := opts
 				o.Roots, o.Intermediates = roots.Clone(), inters.Clone()
 				in.outs[2] = verify(o)
+			},
+		}
+		return in
+	}}
+}
+
+// ---- S27: the process-wide system root pool (sync.Once + RWMutex in smx509/root.go), first use raced.
+// SSL_CERT_FILE points at a PEM bundle written by the scenario (the S26 root), SSL_CERT_DIR at an empty directory, so
+// what loadSystemRoots reads is owned by the harness. The Once is re-armed before every execution (resetGlobals).
+
+var s27Once sync.Once
+
+func s27init() {
+	s26init()
+	s27Once.Do(func() {
+		// scratch next to the race logs (the run's generated-files directory), same content from every worker process
+		base := os.TempDir()
+		if l := os.Getenv("VERIF_RACE_LOG"); l != "" {
+			base = filepath.Dir(l)
+		}
+		dir := filepath.Join(base, "s27-system-roots")
+		empty := filepath.Join(dir, "empty")
+		if err := os.MkdirAll(empty, 0o755); err != nil {
+			panic(err)
+		}
+		bundle := filepath.Join(dir, "roots.pem")
+		tmp := fmt.Sprintf("%s.%d", bundle, os.Getpid())
+		if err := os.WriteFile(tmp, pem.EncodeToMemory(&pem.Block{Type: "CERTIFICATE", Bytes: s26RootDER}), 0o644); err != nil {
+			panic(err)
+		}
+		if err := os.Rename(tmp, bundle); err != nil {
+			panic(err)
+		}
+		os.Setenv("SSL_CERT_FILE", bundle)
+		os.Setenv("SSL_CERT_DIR", empty)
+		s27Dir = dir
+	})
+}
+
+var s27Dir string
+
+func s27() scenario {
+	return scenario{name: "S27-system-root-pool", resetGlobals: true, setup: func() *inst {
+		s27init()
+		inters := smx509.NewCertPool()
+		if !inters.AppendCertsFromPEM(s26InterPEM) {
+			panic("pool")
+		}
+		leaf, err := smx509.ParseCertificate(s26LeafDER)
+		if err != nil {
+			panic(err)
+		}
+		at := time.Date(2030, 1, 1, 0, 0, 0, 0, time.UTC)
+		res := func(ch [][]*smx509.Certificate, err error) string {
+			if err != nil {
+				return "err:" + err.Error()
+			}
+			return fmt.Sprintf("chains=%d len=%d root=%s", len(ch), len(ch[0]), ch[0][len(ch[0])-1].Subject.CommonName)
+		}
+		in := &inst{outs: make([]string, 3)}
+		in.threads = []func(){
+			func() { // Roots == nil: the verifier asks for the system pool itself
+				in.outs[0] = res(leaf.Verify(smx509.VerifyOptions{Intermediates: inters, CurrentTime: at, DNSName: "leaf.s26.example"}))
+			},
+			func() {
+				p, err := smx509.SystemCertPool()
+				if err != nil {
+					in.outs[1] = "err:" + err.Error()
+					return
+				}
+				in.outs[1] = res(leaf.Verify(smx509.VerifyOptions{Roots: p, Intermediates: inters, CurrentTime: at, DNSName: "leaf.s26.example"}))
+			},
+			func() {
+				p, err := smx509.SystemCertPool()
+				if err != nil {
+					in.outs[2] = "err:" + err.Error()
+					return
+				}
+				q, _ := smx509.SystemCertPool()
+				in.outs[2] = fmt.Sprint(len(p.Subjects()), p.Equal(q))
 			},
 		}
 		return in
